@@ -709,11 +709,26 @@ def generic_program():
                     L.append('\tprintln("con", "%s", %d, unsafe.Offsetof(%s))' % (tn, ci, sel))
             L.append('\tprintln("csz", "%s", "%s", unsafe.Sizeof(x), unsafe.Alignof(x))' % (tn, r))
             L.append("}")
+    # the type parameter itself (not a struct around it): unsafe.Sizeof/Alignof of a T-typed variable per instance - for a
+    # func-typed T the value is the two-word function value, not a code pointer
+    L.append("func genBare[T any](tn string) {")
+    L.append("\tvar arr [2]T")
+    L.append("\tsink = unsafe.Pointer(&arr[0])")
+    L.append('\tprintln("gsz", tn, "Bare", unsafe.Sizeof(arr[0]), unsafe.Alignof(arr[0]), dist(unsafe.Pointer(&arr[1]), unsafe.Pointer(&arr[0])))')
+    L.append("}")
+    for tn, gt, _, _ in GEN_INST:
+        L.append("func conBare_%s() {" % tn)
+        L.append("\tvar x %s" % gt)
+        L.append("\tsink = unsafe.Pointer(&x)")
+        L.append('\tprintln("csz", "%s", "Bare", unsafe.Sizeof(x), unsafe.Alignof(x))' % tn)
+        L.append("}")
     L.append("func main() {")
     for tn, gt, _, _ in GEN_INST:
         for r in roots:
             L.append('\tgen%s[%s]("%s")' % (r, gt, tn))
             L.append("\tcon%s_%s()" % (r, tn))
+        L.append('\tgenBare[%s]("%s")' % (gt, tn))
+        L.append("\tconBare_%s()" % tn)
     L.append("}")
     return "\n".join(L) + "\n"
 
